@@ -297,6 +297,9 @@ def run_shards(binary, cases, args=(), nshards=None, timeout=1500, out_dir=None,
     nshards = nshards or NCPU
     procs = []
     e = dict(os.environ)
+    # per-case CPU-time watchdog of the harness library (harness.hpp): a case that burns this much CPU does not terminate;
+    # the harness then names the case like a fatal signal (sig 26) and g_triage reports it after reproducing it
+    e.setdefault('HZ_CASE_CPU_SECONDS', os.environ.get('VERIF_CASE_CPU_SECONDS', '60'))
     if env:
         e.update(env)
     d = ensure(os.path.join(WORK, 'run'))
